@@ -146,6 +146,18 @@ with fold_neg_ctail (t : ctail) : ctail :=
   | CMore op e r => CMore op (fold_neg e) (fold_neg_ctail r)
   end.
 
+(** The middle operand is ONE Python object held by both Compare nodes.  A visit returns either a
+    fresh constant (outermost [-c]: the object is left alone) or the object itself, rewritten in
+    place.  If the first visit returned the object and the second visit rewrites it again, the first
+    comparison sees that too: [a < -(-(-2)) < b] ends up as [a < -(2)] and [-(2) < b], while
+    [a < -(-2) < b] ends up as [a < -(-2)] and [2 < b] (second visit returned a fresh constant). *)
+Definition is_neg_const (e : expr) : bool :=
+  match e with
+  | EUnary UNeg (EConst c) => match neg_const c with Some _ => true | None => false end
+  | _ => false
+  end.
+Definition alias_fix (a : expr) : expr := if is_neg_const a then a else fold_neg a.
+
 (** [is_illegal_in_list_comp], searched over the whole comprehension node by [find_nodes]. *)
 Fixpoint has_illegal (e : expr) : bool :=
   match e with
@@ -293,7 +305,7 @@ with build_ctail (l' : expr) (rest : ctail) (bb : nat) (extra : option nat) (t f
       if lift_free m then
         LET ex <- match extra with Some x => ret x | None => new_bb end IN
         LET r2 <- build_expr m bb IN
-        DO close_branch (snd r2) (ECmp l' (CLast op (fst r2))) f ex THEN
+        DO close_branch (snd r2) (ECmp l' (CLast op (alias_fix (fst r2)))) f ex THEN
         build_ctail (fold_neg (fold_neg m)) rest' ex None t f
       else fail ErrUnmodelled
   end
